@@ -1,0 +1,6 @@
+//go:build !verif
+
+package server
+
+// verifSpawn - always nil without the `verif` build tag
+var verifSpawn func(zns *ZnPMServer) error
